@@ -7,13 +7,15 @@ CHECKS = {
  'C01': dict(level='proof', technique=TECH,
    text="Function contracts (comparators, _find_prob == left-to-right product, children carry P(child), heap step of next()) "
         "and inductive lemmas (fold_mono, kids_props, addall_*) are discharged for all inputs; C01.order/queue.inv follow "
-        "from next()'s contract. Unbounded in ruleset size, tie pattern and run length.",
+        "from next()'s contract. Unbounded in ruleset size, tie pattern and run length."
+        " No class-level or module-level mutable state in the queue / grammar / loader modules (AST frame). Bounded cross-checks: run-level order, loader specs, and identical sequences in processes with different string-hash seeds.",
    note="A-FP (float * monotone, x*1.0==x), heapq/copy.copy contracts, WF(G) sorted probabilities in [0,1], value semantics of lists; "
         "restore path is C08's"),
  'C02': dict(level='proof', technique=TECH,
    text="_are_you_my_child decides Adopt exactly; find_children returns exactly the adopted children in position order; "
         "every non-root node has exactly one adopting parent for arbitrary (also tied) probabilities (adopt_unique.unique/.adopts); "
-        "next() pushes exactly those children.",
+        "next() pushes exactly those children."
+        " The base-structure loader keeps every line of grammar.txt as one derivation (duplicates included); no shared mutable state (AST frame). Bounded cross-checks: run to exhaustion, loader spec.",
    note="A-FP order embedding only; heapq contract; the run-level counting argument (emitted multiset = language) is composed from these lemmas in DESIGN.md, "
         "and cross-checked by the replay enumerator on small tie-rich grids"),
  'C08': dict(level='other', technique=TECH + "; walk completeness by a labelled bounded stand-in",
@@ -26,13 +28,15 @@ CHECKS = {
  'C04': dict(level='proof', technique=TECH,
    text="_recursive_guesses is verified against the recursive spec Expand: it writes exactly the concatenations of one value per chosen group "
         "in structure order with each mask applied to the tail built so far, every combination once, and returns the number of lines written; "
-        "the Markov branch writes the strings of its OMEN level with the count tied to the lines by the loop invariant of omen_generate_guesses.",
+        "the Markov branch writes the strings of its OMEN level with the count tied to the lines by the loop invariant of omen_generate_guesses."
+        " The OMEN model the generator works on is the files' content (_load_ngrams for IP/CP, _load_length). Bounded cross-checks: expansion, grouping, exact enumeration of Markov levels.",
    note="stdout can encode every value; MarkovCracker's sequence is C10's contract (assumed); WF for expansion (mask length = preceding alpha word length) is a precondition; "
         "''.join uninterpreted; loader grouping of equal probabilities is under C14/C07"),
  'C09': dict(level='other', technique=TECH + "; stdout frame decided on the AST; CLI run as bounded stand-in",
    text="Frame: no function of pcfg_guesser.py / lib_guesser writes to stdout except the single print in print_guess (all paths, syntactic). "
         "Limit: _recursive_guesses / omen_generate_guesses write exactly take(limit, expansion); the session loop invariant keeps limit = N - lines >= 1, "
-        "so exactly min(N,total) lines, a prefix of the unlimited stream; negative limits refused. Bounded: the real CLI on Rules/Default.",
+        "so exactly min(N,total) lines, a prefix of the unlimited stream; negative limits refused. Bounded: the real CLI on Rules/Default."
+        " What a status / help request runs neither prints to stdout nor calls the output point (AST frames).",
    note="A-WFX (popped pre-terminals satisfy the expansion preconditions) assumed; syntactic frame does not see aliases of sys.stdout; honeyword modes under C16"),
  'C12': dict(level='other', technique=TECH + "; thread as a rely/guarantee environment (sequentialised)",
    text="keypress: no exception escapes (input() may raise EOFError/ValueError/OSError), its only write is should_exit = True after reading 'q'. "
@@ -43,27 +47,32 @@ CHECKS = {
  'C14': dict(level='other', technique=TECH + "; file model for the loader; bounded stand-ins for _load_terminals and the CLI",
    text="_load_base_structures (all grammar.txt contents satisfying the line format): exactly the selected lines in order, probability float/(1-P(M)) with P(M)=0 when absent, then the C insertion; "
         "load_save copies the saved flags; main() loads the grammar with the saved flags on --load and refuses a uuid mismatch. Bounded: insertion loop vs declarative spec, "
-        "skip_case on shipped rulesets, CLI resume.",
+        "skip_case on shipped rulesets, CLI resume."
+        " initalize_base_structures seeds the queue with every loaded base structure; no shared mutable state in loader / grammar modules (AST frame).",
    note="file system and str.split/rstrip/float as uninterpreted functions; PcfgGrammar.__init__ trusted in main(); order clause up to ties"),
  'C16': dict(level='other', technique=TECH + "; RNG by contract (ghost draw streams); measure clause in real arithmetic",
    text="random_walk returns exactly the node selected by cumulative sums against the successive draws and always a node; _honeyword_recursive_guess writes exactly one element of the expansion "
-        "(none for Markov); HoneywordSession.run writes exactly N lines and re-seeds with consecutive seeds from 1 in random-walk mode. Bounded: interval sweep with exact measures.",
+        "(none for Markov); HoneywordSession.run writes exactly N lines and re-seeds with consecutive seeds from 1 in random-walk mode. Bounded: interval sweep with exact measures."
+        " _load_base_structures: the base-structure probabilities drawn from are the file's (renormalised under --skip_brute); no shared mutable state (AST frame).",
    note="RNG contract assumed (uniformity/independence are the RNG's); A-REAL for the measure; A-WFX"),
  'C17': dict(level='other', technique=TECH + "; CLI run as bounded stand-in",
    text="create_prince_wordlist writes at most --size words, the first N of the unbounded stream (loop invariant over the log of popped pre-terminals); write_guess_to_file appends guess+LF; "
-        "save_to_file redirects the single output point only with a filename; prince_evaluation tallies every label once. Bounded: the real CLI around a group boundary, file vs stdout.",
+        "save_to_file redirects the single output point only with a filename; prince_evaluation tallies every label once. Bounded: the real CLI around a group boundary, file vs stdout."
+        " _load_base_structures inserts C<n> after every A<n> with the same n; run to exhaustion hands out every pre-terminal (bounded cross-check).",
    note="order/exactly-once are C01/C02 via next()'s contract; A-WFX; prince_ling.main not under contract"),
  'C05': dict(level='other', technique=TECH + "; ghost cut-point list for the tiling invariant; keyboard/multi-word by bounded stand-ins",
    text="For all strings: every detect_* returns the section unchanged or 1-3 parts that tile it, carving exactly the first maximal digit/letter run, the first valid year, "
         "the first occurrence of a listed context string, an e-mail prefix or a website interval, labels stating true lengths; every *_detection loop keeps "
         "'the section list tiles the password'; other_detection leaves nothing unlabelled; base_structure_creation never raises; counters tally the found lists. "
-        "Bounded: keyboard walks, multi-word splitting, alpha_detection's list loop, the end-to-end pipeline (exhaustive small strings), lower_keep_length (all code points).",
+        "Bounded: keyboard walks, multi-word splitting, alpha_detection's list loop, the end-to-end pipeline (exhaustive small strings), lower_keep_length (all code points)."
+        " The multi-word detector is only read while segmenting (AST frame).",
    note="string theory is an uninterpreted sort with slice/concat axioms; lower() has no length axiom (precondition in detect_alpha); detect_keyboard_walk, MultiWordDetector.parse "
         "and alpha_detection's list loop are trusted in the deductive part"),
  'C06': dict(level='other', technique=TECH + "; Counter by assumed contract; end-to-end training as bounded stand-in",
    text="calculate_probabilities: every item once in most_common order with count/total; the writer truncates and writes one line value TAB repr(p) LF per item; "
         "save_indexed_counters: old files removed, exactly one file per key; run_trainer: count['M'] = N/coverage - N (absent for 1, only structure for 0), N from pass 1; "
-        "E/W structures unsupported. Lemmas: sorted, sum to 1 (A-REAL). Bounded: real CLI, hash-seed determinism.",
+        "E/W structures unsupported. Lemmas: sorted, sum to 1 (A-REAL). Bounded: real CLI, hash-seed determinism."
+        " _update_counter_len_indexed tallies every found string under its own length. Bounded also: every value of <Category>/<n>.txt has n characters; re-training leaves no stale file.",
    note="Counter.most_common/values assumed; A-FP, A-REAL; parse/OMEN/savers trusted inside run_trainer; determinism only bounded"),
  'C07': dict(level='other', technique=TECH + "; character table by exhaustive enumeration; encoding frame on the AST",
    text="check_valid accepts only passwords that stay on one line (no TAB, C0, nor any code point at which splitlines/codecs break, set recomputed each run); writer format; "
@@ -78,7 +87,8 @@ CHECKS = {
    text="omen_generate_guesses pickles the cursor right after the last emitted guess exactly when it stops on a quit; restore_omen emits from the pickled cursor a prefix of the remaining strings "
         "of the level, all of them unless the user quits again; CrackingSession.run resumes a Markov level first, and only, when the loaded options hold the cursor option; "
         "_save_session writes that option exactly when this process stopped inside a Markov level, so later cycles do not replay the remainder. Bounded: every cut position on the real MarkovCracker, "
-        "three-session cycles on a trained ruleset (incl. a quit inside the last pre-terminal's level: defect F17, repaired).",
+        "three-session cycles on a trained ruleset (incl. a quit inside the last pre-terminal's level: defect F17, repaired)."
+        " The tables the pickled cursor indexes are loaded in file order (_load_ngrams, _load_length) and identically in every process (bounded, three hash seeds). A quit inside the last pre-terminal's level is saved (F17 repaired).",
    note="MarkovCracker.next_guess/save_session/load_session trusted (C10's subject); A-PICKLE; rely/guarantee sequentialisation of the keyboard thread"),
  'C11': dict(level='other', technique=TECH + "; guesser side and file round trip by a bounded stand-in",
    text="find_omen_level (trainer tables) and OmenScorer.parse (IP/CP/LN tables) each return ln + ip + the sum of the transition levels of every n-gram and -1 exactly when the length is "
@@ -89,17 +99,20 @@ CHECKS = {
  'C10': dict(level='other', technique=TECH + " for the level search, string formatting and first-level search; exact enumeration by a labelled bounded stand-in",
    text="Deductive for all inputs: _find_cp returns the highest level in [bottom, min(top, max_level)] at which the prefix has transitions (exactly that list) and (None, None) exactly when "
         "none exists; _format_guess is the initial n-gram followed by the letters the parse tree points at; _find_first_object returns the lowest populated level in 0..max_level inclusive. "
-        "Bounded (never counted as proved): the multiset emitted per level equals a brute-force enumeration, for shuffled level histories sharing one cache; pickle round trip at every cut.",
+        "Bounded (never counted as proved): the multiset emitted per level equals a brute-force enumeration, for shuffled level histories sharing one cache; pickle round trip at every cut."
+        " _load_ngrams (IP, CP) and _load_length load exactly the files' content in file order; the loaded tables are identical across hash seeds (bounded).",
    note="the in-place backtracking successor (next_guess, _fill_out_parse_tree, Optimizer) is outside the verifiable subset; exactness rests on the stated bound"),
  'C18': dict(level='other', technique=TECH + "; statement slice of save_omen_rules_to_disk extracted mechanically; recursive count trusted and compared with the real generator by a bounded stand-in",
    text="calc_omen_keyspace (all models, all max_level/max_keyspace): every listed level holds the complete sum over initial n-grams with ip_level <= level and lengths >= n-gram size "
         "with length level <= the rest of the recursive count for (rest, length - ngram + 1 transitions); the cut-off never leaves a partial level. Slice of save_omen_rules_to_disk: "
-        "pcfg_omen_prob lists exactly the levels with non-zero keyspace, each with (passwords at level / N) / keyspace. Bounded: listed keyspace == number of distinct strings the real MarkovCracker emits.",
+        "pcfg_omen_prob lists exactly the levels with non-zero keyspace, each with (passwords at level / N) / keyspace. Bounded: listed keyspace == number of distinct strings the real MarkovCracker emits."
+        " Bounded also: exact enumeration per level up to the maximum level (what the guesser really produces).",
    note="_rec_calc_keyspace trusted (RecCount uninterpreted); dict.items() contract assumed; A-FP-INT (ints below 2**53 convert exactly) used for the non-zero divisor only"),
  'C03': dict(level='other', technique=TECH + "; the functions on the path from a training password to its guess re-verified against the contracts the composition uses; end-to-end as bounded stand-in",
    text="Re-discharged here: parse keeps the tiling and tallies every segment under its label, base_structure_creation joins the labels, calculate_probabilities lists every counted item once "
         "with count/total, the loader returns every written value and inserts C<n> after every A<n>, _recursive_guesses emits every combination with the mask applied, every pre-terminal has exactly "
-        "one adopting parent. The composition of these facts is argued in DESIGN.md, not machine-checked. Bounded: every supported training password is in the --skip_brute stream and the mass is 1.",
+        "one adopting parent. The composition of these facts is argued in DESIGN.md, not machine-checked. Bounded: every supported training password is in the --skip_brute stream and the mass is 1."
+        " The multi-word detector is only read while segmenting (AST frame): the segmentation of a password does not depend on earlier passwords.",
    note="composition argument not an obligation; *_detection callee contracts discharged under C05; one-to-one case-mapping domain as in the statement"),
  'C13': dict(level='other', technique=TECH + "; read-only frame of the scorer decided on the AST; score-vs-guesser as bounded stand-in",
    text="PCFGPasswordScorer.parse (all strings, all tables): e-mail / website inputs are classified e / w with probability 0, unsupported structures score 0, a non-zero score is exactly the "
